@@ -389,7 +389,7 @@ def _expand(args):
 
 
 def run(ctx: core.Ctx) -> None:
-    depth = int(os.environ.get('C04_DEPTH', '6' if ctx.tier == 'quick' else '8'))
+    depth = int(os.environ.get('C04_DEPTH', '6' if ctx.tier == 'quick' else '7'))
     variants = ['grouped', 'ungrouped', 'v6', 'addpath']
     ctx.rule = ('BFS over all operation sequences (announce same prefix with 2 attribute sets / 2 next hops / 2 path ids, '
                 'withdraw, watchdog +/-, flush, enhanced flush, clear, transmitter pull) up to depth %d on a real OutgoingRIB driven '
